@@ -4,6 +4,7 @@ invariants are evaluated directly."""
 import builtins
 import random
 
+import common
 from common import Report, proof_stage, coq_eval_files, parse_nat_list
 from sched import Sched, Susp, Cancelled
 import asyncstdlib as a
@@ -271,7 +272,7 @@ def run(tier, seed):
     ]
     ncfg = 6 if tier == "quick" else 60
     cfgs = fixed + [gen_cfg(rng, small=True) for _ in range(ncfg)]
-    cap = 400 if tier == "quick" else 8000
+    cap = 400 * common.scale(rep) if tier == "quick" else 8000
     for cfg in cfgs:
         for actions in all_schedules(cfg, cap):
             nexh += 1
